@@ -23,7 +23,7 @@ RULE = (
 )
 ASSUMPTIONS = ["sys.addaudithook sees every open()/os-level mutation made from Python code in the process"]
 TIMEOUT = {"quick": 900, "thorough": 1800}
-MIN_NONTRIVIAL = {"quick": 20, "thorough": 150}
+MIN_NONTRIVIAL = {"quick": 12, "thorough": 150}
 REQUIRED_COUNTERS = ["history_ops", "audit_events_seen", "probe_comparisons"]
 N = 400
 
@@ -34,7 +34,7 @@ def cases(tier, seed):
     ids = list(range(N))
     random.Random(f"c32:{seed}").shuffle(ids)
     if tier == "quick":
-        ids = ids[:40]
+        ids = ids[:30]
     return [{"id": f"hist:{i}", "idx": i} for i in ids]
 
 
@@ -54,7 +54,7 @@ def script(idx):
             files.append({"name": f"f{i}.sql", "dialect": "ansi", "templater": "raw", "text": "SELECT a,b from t -- noqa: LT01\n-- sqlfluff:max_line_length:30\nselect 1 from a_very_long_table_name_here_x\n"})
     ops = []
     for _ in range(r.randint(5, 20)):
-        ops.append({"op": r.choice(["lint", "lint", "parse", "render", "fix_copy", "lint_except", "lint_rules"]), "file": r.randrange(len(files)), "rules": r.choice([None, "core", "LT01,CP01", "layout"]), "except": r.choice(["LT01", "CP0*", "PRS"])})
+        ops.append({"op": r.choice(["lint", "lint", "parse", "render", "fix_copy", "lint_except", "lint_rules", "shared_lint", "shared_lint", "shared_ctx_a"]), "file": r.randrange(len(files)), "rules": r.choice([None, "core", "LT01,CP01", "layout"]), "except": r.choice(["LT01", "CP0*", "PRS"])})
     return {"files": files, "ops": ops, "probe": r.randrange(len(files))}
 
 
@@ -106,6 +106,19 @@ def _driver():
     sys.addaudithook(hook)
     out = {"ops": 0}
     files = sc["files"]
+    shared = {}
+
+    def shared_linter(dialect, templater):
+        k = (dialect, templater)
+        if k not in shared:
+            shared[k] = _linter(dialect, templater)
+        return shared[k]
+
+    def shared_lint(path, dialect, templater):
+        res = shared_linter(dialect, templater).lint_paths((path,), processes=1)
+        return sorted((v.rule_code(), v.line_no, v.line_pos, v.desc()) for v in res.get_violations())
+
+    ctx_b = os.path.join(d, "ctx_b", "q.sql")
     if mode == "history":
         from sqlfluff.core import Linter
 
@@ -122,6 +135,10 @@ def _driver():
                     _lint_file(path, f["dialect"], f["templater"], rules=op["rules"])
                 elif op["op"] == "lint_except":
                     _lint_file(path, f["dialect"], f["templater"], core={"disable_noqa": True, "disable_noqa_except": op["except"]})
+                elif op["op"] == "shared_lint":
+                    shared_lint(path, f["dialect"], f["templater"])
+                elif op["op"] == "shared_ctx_a":
+                    shared_lint(os.path.join(d, "ctx_a", "q.sql"), "ansi", "jinja")
                 elif op["op"] == "parse":
                     lnt = _linter(f["dialect"], f["templater"])
                     list(lnt.parse_path(path))
@@ -140,9 +157,14 @@ def _driver():
             out["ops"] += 1
         out["probe_after"] = _lint_file(os.path.join(d, p["name"]), p["dialect"], p["templater"])
         out["probe_again"] = _lint_file(os.path.join(d, p["name"]), p["dialect"], p["templater"])
+        # same Linter object that served the history (templater / config objects are reused)
+        shared_lint(os.path.join(d, "ctx_a", "q.sql"), "ansi", "jinja")
+        out["probe_shared"] = shared_lint(os.path.join(d, p["name"]), p["dialect"], p["templater"])
+        out["ctx_b_shared"] = shared_lint(ctx_b, "ansi", "jinja")
     else:
         p = files[sc["probe"]]
         out["probe"] = _lint_file(os.path.join(d, p["name"]), p["dialect"], p["templater"])
+        out["ctx_b"] = _lint_file(ctx_b, "ansi", "jinja")
     out["write_events"] = events[:10]
     out["audit_events"] = seen["n"]
     print("VFWREPORT " + json.dumps(out))
@@ -150,11 +172,12 @@ def _driver():
 
 def snap(d):
     out = {}
-    for n in sorted(os.listdir(d)):
-        p = os.path.join(d, n)
-        st = os.stat(p)
-        with open(p, "rb") as f:
-            out[n] = (hashlib.sha1(f.read()).hexdigest(), st.st_ino, st.st_mtime_ns, st.st_mode)
+    for dp, _, fs in sorted(os.walk(d)):
+        for n in sorted(fs):
+            p = os.path.join(dp, n)
+            st = os.stat(p)
+            with open(p, "rb") as f:
+                out[os.path.relpath(p, d)] = (hashlib.sha1(f.read()).hexdigest(), st.st_ino, st.st_mtime_ns, st.st_mode)
     return out
 
 
@@ -177,6 +200,13 @@ def run_case(case):
             with open(os.path.join(d, f["name"]), "w", encoding="utf-8", newline="") as fh:
                 fh.write(f["text"])
         sf.write_ini(d, {"core": {}, "templater": {"jinja": {"context": dict(jinja_gen.CONTEXT)}}})
+        # two sub-directories whose files differ only in the (nested) templater context available to them
+        for sub, ctx in (("ctx_a", {"tbl_only_in_a": "foo"}), ("ctx_b", None)):
+            os.makedirs(os.path.join(d, sub))
+            with open(os.path.join(d, sub, "q.sql"), "w") as fh:
+                fh.write("SELECT a FROM {{ tbl_only_in_a }}\n")
+            if ctx:
+                sf.write_ini(os.path.join(d, sub), {"templater": {"jinja": {"context": ctx}}})
         before = snap(d)
         hist = run_driver("history", d, sc, 0)
         after = snap(d)
@@ -195,7 +225,9 @@ def run_case(case):
         if before != after or before != after2:
             diff = [n for n in set(before) | set(after2) if before.get(n) != after2.get(n) or before.get(n) != after.get(n)]
             fails.append({"sig": "input_files_changed_on_disk", "detail": {"files": diff[:5]}})
-        runs = {"history_first": hist["probe_first"], "after_history": hist["probe_after"], "again_same_process": hist["probe_again"], "fresh_hashseed0": fresh0["probe"], "fresh_hashseed1": fresh1["probe"]}
+        runs = {"history_first": hist["probe_first"], "after_history": hist["probe_after"], "again_same_process": hist["probe_again"], "shared_linter_after_history": hist["probe_shared"], "fresh_hashseed0": fresh0["probe"], "fresh_hashseed1": fresh1["probe"]}
+        if hist["ctx_b_shared"] != fresh0["ctx_b"]:
+            fails.append({"sig": "violations_differ:shared_linter_other_directory_context", "detail": {"fresh": fresh0["ctx_b"][:4], "after_history_same_linter": hist["ctx_b_shared"][:4]}})
         ref = runs["fresh_hashseed0"]
         for name, v in runs.items():
             if v != ref:
